@@ -99,7 +99,7 @@ pub fn build_base(path: &str, pagesize: u64, commits_code: usize) -> Result<Base
     if tail_kind > 0 {
         let ops: Vec<OpSpec> = if tail_kind == 3 {
             // page header 40 + element 32 + key 1 + value = 1024 resp. 2048
-            vec![OpSpec::bucket("create", &[], "z1"), OpSpec::put(&["z1"], "o", "t*951"), OpSpec::bucket("create", &[], "z2"), OpSpec::put(&["z2"], "o", "t*1975"), OpSpec::put(&["m"], "shared", "exact*40")]
+            vec![OpSpec::bucket("create", &[], "z1"), OpSpec::put(&["z1"], "o", &format!("t*{}", pagesize - 73)), OpSpec::bucket("create", &[], "z2"), OpSpec::put(&["z2"], "o", &format!("t*{}", 2 * pagesize - 73)), OpSpec::put(&["m"], "shared", "exact*40")]
         } else if tail_kind == 1 {
             (0..10).map(|i| OpSpec::put(&["m"], &format!("split{:02}", i), "w*300")).chain((0..6).map(|i| OpSpec::put(&["m", "sub"], &format!("t{}", i), "w*300"))).collect()
         } else {
@@ -375,7 +375,8 @@ pub fn run(check: &mut Check) {
     std::env::set_var("VCHECK_ENTROPY_SEED", check.seed.max(1).to_string());
     let init = json!({"tier": tier.name()}).to_string();
     let mut pool = Pool::new("metax", &init, report::ncpu(), &scratch);
-    let sizes: Vec<u64> = if tier == Tier::Quick { vec![1024] } else { vec![1024, 4096] };
+    // 1032 / 5000: page sizes that are not multiples of the 512-byte sector (reduced set of bases)
+    let sizes: Vec<u64> = if tier == Tier::Quick { vec![1024, 1032] } else { vec![1024, 4096, 1032, 5000] };
     let ncommits = if tier == Tier::Quick { 3 } else { 6 };
     let mut jobs = vec![];
     let mut meta = vec![];
@@ -397,6 +398,9 @@ pub fn run(check: &mut Check) {
             codes.push(1005);
             codes.push(2004);
             codes.push(2005);
+        }
+        if ps % 512 != 0 {
+            codes = vec![2, 3, 3003, 4003, 5002, 5003, 5004];
         }
         for commits in codes {
             for slot in 0..2 {
